@@ -179,7 +179,7 @@ def solution_recipe(extreme=True, max_pps=4):
         # new computation time or None]
         "edit": st.one_of(st.none(), st.none(), st.tuples(
             st.integers(0, 3), st.one_of(st.none(), st.integers(1, 4)), st.one_of(st.none(), st.integers(0, 7)),
-            st.one_of(st.none(), st.floats(1e-3, 1e3)), st.booleans()).map(list)),
+            st.one_of(st.none(), st.floats(1e-3, 1e3)), st.booleans(), st.booleans()).map(list)),
     })
 
 
@@ -214,7 +214,17 @@ def apply_edit(sol, r):
     if e[3] is not None:
         sol.computation_time = e[3]
         r2["computation_time"] = e[3]
-    if len(e) > 4 and e[4] and len(p["states"]) > 1:
+    if len(e) > 5 and e[5]:
+        # a trajectory that differs from the current one only far behind the decimal point (a re-planned solution):
+        # the written values are the new ones, bit for bit
+        def nudge(v):
+            if isinstance(v, float) and v == v and abs(v) < 1e300:
+                w = v + 3e-12 * (1.0 + abs(v))
+                return w if w != v else v
+            return v
+        p["states"] = [[nudge(v) for v in vals] for vals in p["states"]]
+        target.trajectory = build_trajectory(p)
+    elif len(e) > 4 and e[4] and len(p["states"]) > 1:
         # a new trajectory of the same kind through the public trajectory setter (the value rows in reverse order)
         p["states"] = list(reversed(p["states"]))
         target.trajectory = build_trajectory(p)
